@@ -76,14 +76,17 @@ def in_known(text, exc, ov):
     tb = "".join(traceback.format_exception(type(exc), exc, exc.__traceback__))
     if isinstance(exc, AssertionError) and _transition_assertion(tb):
         return "C03-hr-in-container"
-    if "<img src>" in text and "html_image" in (ov.get("myst_enable_extensions") or []):
-        return "C01-img-attr-none"
     # a directive whose body is blank lines only: docutils' Figure.run indexes the (empty) result of parsing its content
     if isinstance(exc, IndexError) and "directives/images.py" in tb and "first_node = node[0]" in tb:
         return "C01-figure-blank-body"
     # docutils' own defect (the rst parser fails the same way): a target-notes directive with a :name: option
     if isinstance(exc, AssertionError) and 'Losing "ids" attribute' in tb and "target-notes" in text:
         return "C01-docutils-target-notes-name"
+    # the same cause under the block-quote directives: docutils loses the directive's class on the empty block quote
+    import re
+
+    if isinstance(exc, AssertionError) and 'Losing "classes" attribute' in tb and re.search(r"\{(epigraph|highlights|pull-quote)\}[^\n]*\n(\s*\n)+\s*```", text):
+        return "C01-blockquote-blank-body"
     return None
 
 
@@ -152,7 +155,7 @@ def systematic(col, tier, rng, d):
     quick = tier == "quick"
     cases = grid_cases()
     # the same grid through the Sphinx front end (all extensions are in its conf.py): a seeded sample
-    sample = rng.sample(cases, 400 if quick else 2000)
+    sample = rng.sample(cases, 400 if quick else 1200)
     t1 = time.time()
     conf = f"myst_enable_extensions = {EXTS!r}\nmyst_heading_anchors = 2\nmyst_title_to_header = True\n"
     nb = sphinx_pass(col, [text for _k, text, _ov in sample], conf)
@@ -191,7 +194,9 @@ def sphinx_pass(col, docs, conf):
                 raise
             return exc
 
-    todo = [list(enumerate(docs))]
+    # (projects of at most 400 documents: a build keeps every doctree in memory)
+    allc = list(enumerate(docs))
+    todo = [allc[i:i + 400] for i in range(0, len(allc), 400)]
     n_builds = 0
     while todo:
         chunk = todo.pop()
